@@ -245,6 +245,7 @@ fn knobs_for(prop: Prop, sub: u64, tier: Tier, rng: &mut Rng) -> Knobs {
                 k.w_beh_table = 6;
                 k.w_layout = [4, 2, 0, 0];
                 k.continue_pct = 100;
+                k.failing_stmt_pct = 50;
             }
         }
         Prop::C02 => {
@@ -302,6 +303,26 @@ fn knobs_for(prop: Prop, sub: u64, tier: Tier, rng: &mut Rng) -> Knobs {
             };
             k.value_fault_pct = 20;
             k.continue_pct = 10;
+            if sub % 6 == 4 {
+                // a virtual signal that reads an output which is sometimes Z/X, a caller that
+                // keeps going, devices that regularly repeat their previous answer: a row is
+                // judged by the answer of its own call, whatever became of the row before
+                k.n_virtual = (1, 1);
+                k.w_leaf_read = 4;
+                k.continue_pct = 100;
+                k.w_beh_tagged = 0;
+                k.w_beh_table = 8;
+                k.w_beh_const = 2;
+                k.table = TableW {
+                    small: 6,
+                    byte: 0,
+                    fit: 0,
+                    boundary: 0,
+                    z: 3,
+                    x: 1,
+                };
+                k.w_layout = [4, 2, 0, 0];
+            }
             if sub % 6 == 5 {
                 // variables (top-level lets, loop counters) named like a device output whose
                 // answers come from a tiny set or count in step with the loop: the device
@@ -537,6 +558,13 @@ fn knobs_for(prop: Prop, sub: u64, tier: Tier, rng: &mut Rng) -> Knobs {
             k.dup_random_entry = true;
             k.trailing_random_while_pct = 10;
             k.swarm(rng);
+            if sub % 5 == 1 {
+                // statements that fail right after a draw, a caller that keeps going: the
+                // generator's state is what the draws made of it, whatever failed in between
+                k.continue_pct = 100;
+                k.failing_stmt_pct = 100;
+                k.w_reset = 5;
+            }
         }
         Prop::C18 => {
             k.w_in_x = 1;
@@ -557,6 +585,12 @@ fn knobs_for(prop: Prop, sub: u64, tier: Tier, rng: &mut Rng) -> Knobs {
                 k.table.x = 1;
                 k.w_beh_table = 6;
                 k.continue_pct = 100;
+            }
+            if sub % 5 == 4 {
+                // statements and rows that fail inside loops, a caller that keeps going: the
+                // loop goes on, its frame is popped at its end as ever
+                k.continue_pct = 100;
+                k.failing_stmt_pct = 100;
             }
         }
     }
@@ -679,6 +713,8 @@ fn corpus_case(prop: Prop, rng: &mut Rng) -> Option<Case> {
             seed: rng.next_u64(),
             overrides_write: rng.chance(1, 2),
             in_place: false,
+            alternate_memory: false,
+            hold: 1,
             faults: vec![],
         }],
         schedule: vec![Action::Construct(0), Action::Run(0)],
@@ -775,6 +811,8 @@ fn huge_env_case(rng: &mut Rng) -> Case {
             seed: rng.next_u64(),
             overrides_write: rng.chance(1, 2),
             in_place: false,
+            alternate_memory: false,
+            hold: 1,
             faults: vec![],
         }],
         schedule: vec![Action::Construct(0), Action::Run(0)],
@@ -804,6 +842,17 @@ pub fn generate(prop: Prop, run_seed: u64, tier: Tier) -> Case {
     if mix(&[run_seed, 0x7153_AD29]) % 8 == 0 {
         for d in &mut case.duts {
             d.in_place = true;
+            d.alternate_memory = mix(&[run_seed, 0x7153_AD2A]) % 2 == 0;
+        }
+    }
+    // one device in six holds its table/counter outputs for 2-4 calls (identical consecutive
+    // answers, identical Z/X included)
+    {
+        let h = mix(&[run_seed, 0x7153_AD2B]);
+        if h % 6 == 0 {
+            for d in &mut case.duts {
+                d.hold = 2 + ((h >> 8) % 3) as u32;
+            }
         }
     }
     if t % 128 == 0 && small {
@@ -846,6 +895,53 @@ pub fn generate(prop: Prop, run_seed: u64, tier: Tier) -> Case {
     case
 }
 
+/// plants statements whose evaluation fails at run time (division by zero): a `let` of a name
+/// nothing else uses, or a copy of a neighbouring row with one entry replaced
+fn plant_failing(stmts: &mut Vec<Stmt>, rng: &mut Rng, random: bool, left: &mut usize) {
+    let mut i = 0;
+    while i <= stmts.len() {
+        if *left > 0 && rng.chance(1, 4) {
+            let zero_div = |num: Expr| Expr::Bin(BinOp::Div, Box::new(num), Box::new(Expr::Num(0)));
+            // (a row that stands earlier in this very block: every name it uses is still bound)
+            let row = stmts[..i.min(stmts.len())].iter().rev().find_map(|s| match s {
+                Stmt::Row(e) => Some(e.clone()),
+                _ => None,
+            });
+            let planted = match row {
+                Some(mut entries) if rng.chance(1, 2) => {
+                    match entries.iter().position(|e| matches!(e, Entry::Num(_) | Entry::Expr(_))) {
+                        Some(p) => {
+                            entries[p] = Entry::Expr(zero_div(Expr::Num(7)));
+                            Some(Stmt::Row(entries))
+                        }
+                        None => None,
+                    }
+                }
+                _ => {
+                    let num = if random && rng.chance(1, 2) {
+                        Expr::Random(Box::new(Expr::Num(9)))
+                    } else {
+                        Expr::Num(7)
+                    };
+                    Some(Stmt::Let("zz".into(), zero_div(num)))
+                }
+            };
+            if let Some(st) = planted {
+                stmts.insert(i, st);
+                *left -= 1;
+                i += 1;
+            }
+        }
+        if i < stmts.len() {
+            match &mut stmts[i] {
+                Stmt::Loop(_, _, body) | Stmt::While(_, body) => plant_failing(body, rng, random, left),
+                _ => {}
+            }
+        }
+        i += 1;
+    }
+}
+
 fn bump_declares(stmts: &mut [Stmt]) {
     for s in stmts {
         match s {
@@ -880,6 +976,13 @@ fn generate_on_one_thread(prop: Prop, run_seed: u64, tier: Tier) -> Case {
     }
     let knobs = knobs_for(prop, sub, tier, &mut rng);
     let mut case = gen_case(rng.fork(), &knobs);
+    if case.continue_after_error && knobs.failing_stmt_pct > 0 {
+        let mut frng = Rng::new(mix(&[run_seed, 0xFA11]));
+        if frng.chance(knobs.failing_stmt_pct as u64, 100) {
+            let mut left = 1 + frng.usize(3);
+            plant_failing(&mut case.program.stmts, &mut frng, knobs.random, &mut left);
+        }
+    }
     let mut rng = rng.fork();
 
     // faults that need the call count of the fault-free run
@@ -951,13 +1054,74 @@ fn generate_on_one_thread(prop: Prop, run_seed: u64, tier: Tier) -> Case {
             id: 0,
         });
     }
+    // a device that dumps all its pins: after the test's outputs it lists a signal with the
+    // name of one of them and another width (C03: attribution is by signal, not by name). Only
+    // where the program reads no output: which of two entries of one name a *read* denotes is
+    // left open
+    if prop == Prop::C03
+        && !case.duts[0].layout.is_empty()
+        && crate::reference::read_outputs(&case.program).is_empty()
+        && mix(&[run_seed, 0xA11A5]) % 10 == 0
+    {
+        let p = (mix(&[run_seed, 0xA11A6]) % case.duts[0].layout.len() as u64) as usize;
+        case.duts[0].faults.push(Fault {
+            at_call: 0,
+            kind: FaultKind::PermanentAlias(p),
+            id: 0,
+        });
+    }
     match prop {
         Prop::C15 => c15_shape(&mut case, &mut rng),
         Prop::C17 => c17_shape(&mut case, &mut rng),
         Prop::C03 => c03_shape(&mut case, &mut rng),
+        Prop::C04 | Prop::C14 | Prop::C18 | Prop::C10 => {
+            let mut srng = Rng::new(mix(&[run_seed, 0x5EC0_4D]));
+            if srng.chance(1, 8) {
+                second_device_same_outputs(&mut case, &mut srng);
+            }
+            if prop == Prop::C10 && srng.chance(1, 4) {
+                // the caller also lists the rows of the same test (before or after the run)
+                case.run_static = true;
+                case.static_first = srng.chance(1, 2);
+            }
+        }
         _ => {}
     }
     case
+}
+
+/// F24 for the families that read outputs: a second device that supplies the same outputs in
+/// another order runs the same `TestCase`, after the first one or interleaved with it
+fn second_device_same_outputs(case: &mut Case, rng: &mut Rng) {
+    if case.duts.len() != 1 || case.duts[0].layout.len() < 2 || !case.duts[0].faults.is_empty() {
+        return;
+    }
+    let first = case.duts[0].clone();
+    let mut layout = first.layout.clone();
+    rng.shuffle(&mut layout);
+    if layout.iter().map(|(s, _)| &s.name).eq(first.layout.iter().map(|(s, _)| &s.name)) {
+        layout.reverse();
+    }
+    case.duts.push(crate::dut::DutSpec {
+        layout,
+        seed: if rng.chance(1, 2) { first.seed } else { rng.next_u64() },
+        overrides_write: rng.chance(1, 2),
+        in_place: first.in_place,
+        alternate_memory: first.alternate_memory,
+        hold: first.hold,
+        faults: vec![],
+    });
+    case.entropy.push(rng.next_u64());
+    case.schedule = if rng.chance(1, 2) {
+        vec![
+            Action::Construct(0),
+            Action::Run(0),
+            Action::Construct(1),
+            Action::Run(1),
+        ]
+    } else {
+        interleaved_schedule(rng, 2, case.max_steps)
+    };
 }
 
 fn c15_shape(case: &mut Case, rng: &mut Rng) {
@@ -1083,6 +1247,8 @@ fn c03_shape(case: &mut Case, rng: &mut Rng) {
         seed: rng.next_u64(),
         overrides_write: rng.chance(1, 2),
         in_place: false,
+        alternate_memory: false,
+        hold: 1,
         faults: vec![],
     });
     case.entropy.push(rng.next_u64());
@@ -1214,14 +1380,18 @@ fn count_faults(case: &Case, out: &RunOut, f: &mut [u32; N_FAULT_KINDS]) {
                     FaultKind::SubstName(_) | FaultKind::SubstBits(_) | FaultKind::SubstKind(_) => {
                         f[9] += 1
                     }
-                    FaultKind::Value(..) | FaultKind::PermanentForeign(_) => {}
+                    FaultKind::Value(..)
+                    | FaultKind::PermanentForeign(_)
+                    | FaultKind::PermanentAlias(_) => {}
                 }
             }
             if k == 0 {
                 f[26] += dut
                     .faults
                     .iter()
-                    .filter(|x| matches!(x.kind, FaultKind::PermanentForeign(_)))
+                    .filter(|x| {
+                        matches!(x.kind, FaultKind::PermanentForeign(_) | FaultKind::PermanentAlias(_))
+                    })
                     .count() as u32;
             }
             if let ModelAnswer::Ok(ans) = &c.answer {
@@ -1709,6 +1879,56 @@ pub fn evaluate(prop: Prop, case: &Case) -> Eval {
         }
         Prop::C13 | Prop::C15 => unreachable!(),
     }
+    // F24 in the families that read outputs: every further iterator over the same test is
+    // judged against its own device's record
+    if matches!(prop, Prop::C04 | Prop::C14 | Prop::C18) {
+        for k in 1..out.iters.len() {
+            if ev.violation.is_some() {
+                break;
+            }
+            let itk = &out.iters[k];
+            let rk = reference_for(case, &out, k);
+            let (oracle, m) = match prop {
+                Prop::C04 => (
+                    "C04.trace",
+                    lockstep(&out, itk, &rk, case.duts[k].overrides_write, &|w| {
+                        matches!(
+                            w,
+                            What::Ctor
+                                | What::CallCount
+                                | What::CallInputs
+                                | What::RowInputs
+                                | What::RowExpected
+                                | What::ItemClass
+                        )
+                    }),
+                ),
+                Prop::C14 => (
+                    "C14.value",
+                    lockstep(&out, itk, &rk, case.duts[k].overrides_write, &|w| {
+                        matches!(
+                            w,
+                            What::VirtualOutputs | What::RowShape | What::ItemClass | What::RowExpected
+                        )
+                    }),
+                ),
+                _ => (
+                    "C18.env",
+                    lockstep(&out, itk, &rk, case.duts[k].overrides_write, &|w| w == What::Env),
+                ),
+            };
+            ev.violation = m.map(|m| Violation {
+                oracle,
+                detail: format!(
+                    "iterator #{k} of {} over one test (its device lists its outputs in another \
+                     order than the first one's): {:?}: {}",
+                    out.iters.len(),
+                    m.what,
+                    m.detail
+                ),
+            });
+        }
+    }
     ev
 }
 
@@ -1718,6 +1938,11 @@ fn c18_no_outputs(case: &Case, out: &RunOut, r: &RefRun) -> Option<Violation> {
         let Ok(vars) = &vr.result else { continue };
         let Some(rs) = r.steps.get(vr.after_steps.wrapping_sub(1)) else { continue };
         if r.unspecified.as_ref().map(|u| vr.after_steps > u.0).unwrap_or(false) {
+            continue;
+        }
+        // (C18 speaks of the variables at the row just yielded: an inspection after `None` or
+        // after an error item is not judged)
+        if !matches!(rs.item, RefItem::Row { .. }) {
             continue;
         }
         for (name, _) in vars {
